@@ -159,6 +159,14 @@ def parse_via(text, via="file", want=None):
     if via == "file-tuple":  # the selection handed over as a tuple instead of a list
         kw = {k: tuple(v) for k, v in kw.items()}
         via = "file"
+    if via == "file-reuse":
+        # ONE selection object handed to two consecutive parses: the caller's object is the caller's - it is
+        # unchanged afterwards, and the second parse sees the same selection as the first
+        before = list(kw.get("want_tracks", ()))
+        Chart.from_file(io.StringIO(text), **kw)
+        if "want_tracks" in kw and kw["want_tracks"] != before:
+            raise AssertionError("the parse changed the caller's selection list from %r to %r" % (before, kw["want_tracks"]))
+        via = "file"
     if via == "file":
         return Chart.from_file(io.StringIO(text), **kw)
     fd, path = tempfile.mkstemp(suffix=".chart")
